@@ -23,7 +23,7 @@ from ..monitors import call_sanitized, deep_digest, abort_then_call, thread_prob
 EMD_FILES = ('/emd/sift.py', '/emd/spectra.py', '/emd/cycles.py', '/emd/_cycles_support.py', '/emd/utils.py', '/emd/support.py', '/emd/logger.py')
 
 MANIFEST = {
-    'text': 'Held on every call executed: 40+ public numeric entry points (six sift variants, single-IMF extraction plain and masked, mask-frequency estimate, envelope and extrema routines, frequency transform and its helpers, three spectra, bin constructors, cycle detection / statistics / alignment / binning / matching / container operations, amplitude normalisation and the other utils) are called on seeded inputs made read-only, with option dictionaries shared between successive calls; a byte-level mutation sanitizer compares every array / dict / list argument before and after each call, each deterministic call is repeated and compared, the documented layout table ((n,), (n,1), (n,1,1) accepted and array_equal; (n,2), (1,n), (n,2,3) rejected; vector == single column for transforms and cycle routines) and the length-mismatch table are enforced. Sampling of inputs, complete over the entry-point table. Schedules: the same deterministic calls made from 4-5 threads of one interpreter at once (thread switch every 1-10 microseconds) must reproduce the results obtained alone. Faults: a call abandoned at an arbitrary statement (sys.monitoring failpoint) must leave nothing behind for the next valid call. Returned results of every entry point are held untouched and re-read after later calls. A quarter of the shards run in a session that turns Deprecation/Future/UserWarnings into errors.',
+    'text': 'Held on every call executed: 40+ public numeric entry points (six sift variants, single-IMF extraction plain and masked, mask-frequency estimate, envelope and extrema routines, frequency transform and its helpers, three spectra, bin constructors, cycle detection / statistics / alignment / binning / matching / container operations, amplitude normalisation and the other utils; amplitude normalisation and the frequency transform also with the second-level [samples x IMFs x IMFs] layout) are called on seeded inputs made read-only, with option dictionaries shared between successive calls; a byte-level mutation sanitizer compares every array / dict / list argument before and after each call, each deterministic call is repeated and compared, the documented layout table ((n,), (n,1), (n,1,1) accepted and array_equal; (n,2), (1,n), (n,2,3) rejected; vector == single column for transforms and cycle routines) and the length-mismatch table are enforced. Sampling of inputs, complete over the entry-point table. Schedules: the same deterministic calls made from 4-5 threads of one interpreter at once (thread switch every 1-10 microseconds) must reproduce the results obtained alone. Faults: a call abandoned at an arbitrary statement (sys.monitoring failpoint) must leave nothing behind for the next valid call. Returned results of every entry point are held untouched and re-read after later calls. A quarter of the shards run in a session that turns Deprecation/Future/UserWarnings into errors.',
     'note': 'Trusted: numpy digests. An entry point that cannot run on a read-only array because it writes into its input is a violation (that is what the sanitizer is for). is_imf is not in the property\'s entry-point list (and is broken on numpy 2 by an unrelated np.alltrue in a log message).',
     'technique': 'mutation sanitizer + differential layout oracle + repeat-call determinism monitor wrapped around the real entry points',
 }
@@ -298,6 +298,13 @@ def build_table():
     T['Cycles_matching_separate'] = cyc_match
     T['project_cycles_to_samples'] = lambda r, s: (CS.project_cycles_to_samples, (ro(np.arange(4.)), ro(np.repeat(np.arange(4), 3))), {}, True)
     T['amplitude_normalise'] = lambda r, s: (U.amplitude_normalise, (ro(imfs(r)),), dict(clip=bool(r.random() < .5)), True)
+    def imfs3(r):
+        # second-level layout [samples x IMFs x second-level IMFs] (the amplitude envelopes' own components)
+        m = imfs(r)
+        t = np.arange(m.shape[0])
+        return np.stack([m * (1 + .3 * np.sin(t / float(r.uniform(10, 30)))[:, None]), m * float(r.uniform(.5, 2))], axis=2)
+    T['amplitude_normalise:3d'] = lambda r, s: (U.amplitude_normalise, (ro(imfs3(r)),), dict(clip=bool(r.random() < .5)), True)
+    T['frequency_transform:nht:3d'] = lambda r, s: (SP.frequency_transform, (ro(imfs3(r)), 100., gens.pick(r, ['nht', 'hilbert', 'quad'])), {}, True)
     T['wrap_phase'] = lambda r, s: (U.wrap_phase, (ro(np.cumsum(r.uniform(0, 1, 100))),), {}, True)
     T['est_orthogonality'] = lambda r, s: (U.est_orthogonality, (ro(imfs(r)),), {}, True)
     T['find_extrema_locked_epochs'] = lambda r, s: (U.find_extrema_locked_epochs, (ro(sig(r)), 10), {}, True)
